@@ -98,6 +98,47 @@ fn ob_c17_query_capturing_token(index: usize, s0: usize, s1: usize) {
     assert!(t.index() == index && t.span() == (s0, s1), "C17 capture span is the stored token span");
 }
 
+// ---- attribute contracts on When (inject.json), proved with proof_for_contract -------------------
+
+//@ob C12.contract.when.and
+//@ props: C12
+//@ kind: complete
+//@ contract: When::and
+//@ fns: src/query.rs::When::and
+//@ pre: none
+//@ post: [attribute contract] Always iff both are Always; Never iff one is Never
+fn ob_c12_contract_when_and(a: u8, b: u8) {
+    vassume!(a <= 2 && b <= 2);
+    let r = mk_when(a).and(mk_when(b));
+    vreplay_assert!(r.is_always() == (a == 2 && b == 2) && r.is_never() == (a == 0 || b == 0), "C12 contract of When::and");
+}
+
+//@ob C12.contract.when.or
+//@ props: C12
+//@ kind: complete
+//@ contract: When::or
+//@ fns: src/query.rs::When::or
+//@ pre: none
+//@ post: [attribute contract] Always iff one is Always; Never iff both are Never
+fn ob_c12_contract_when_or(a: u8, b: u8) {
+    vassume!(a <= 2 && b <= 2);
+    let r = mk_when(a).or(mk_when(b));
+    vreplay_assert!(r.is_always() == (a == 2 || b == 2) && r.is_never() == (a == 0 && b == 0), "C12 contract of When::or");
+}
+
+//@ob C09.contract.when.certainty
+//@ props: C09 C12
+//@ kind: complete
+//@ contract: When::certainty
+//@ fns: src/query.rs::When::certainty
+//@ pre: none
+//@ post: [attribute contract] Always iff both are Always; Never iff both are Never
+fn ob_c09_contract_when_certainty(a: u8, b: u8) {
+    vassume!(a <= 2 && b <= 2);
+    let r = mk_when(a).certainty(mk_when(b));
+    vreplay_assert!(r.is_always() == (a == 2 && b == 2) && r.is_never() == (a == 0 && b == 0), "C09 contract of When::certainty");
+}
+
 //@ob C12.query.canary
 //@ props: C12
 //@ kind: canary
